@@ -327,6 +327,9 @@ def main(ctx):
         proof_ok, log = ctx.build_props('C03/Props.v', scan_dirs=[lib.COQ / 'C03', lib.COQ / 'C01'])
         if not proof_ok:
             ctx.notes['build_log_tail'] = log[-2500:]
+    cfg_ok = True
+    if tie_ok and proof_ok and (lib.COQ / 'C03' / 'PropsCfg.v').exists():
+        cfg_ok, log2 = ctx.build_props('C03/PropsCfg.v', scan_dirs=[lib.COQ / 'C03'])
     model_ok = tie_ok
     if tie_ok and not proof_ok:
         ok, log, _ = lib.coq_make(['C03/Model.vo'])
@@ -345,6 +348,11 @@ def main(ctx):
     work = ctx.scratch / 'work'
     jobs = [{'op': 'write_read', 'id': i, 'dir': str(work / f'c{i}'), 'mesh': m, 'read_cnt': True}
             for i, m in enumerate(cases)]
+    # every second case is written with overwrite=True over an earlier export of other conditions
+    for i, j in enumerate(jobs):
+        cases[i]['meta']['over_existing'] = i % 2 == 1
+        if i % 2 == 1:
+            j['pre_mesh'] = cases[i - 1]
     t0 = time.time()
     res1 = cm.run_child(ctx, jobs, 'phase1')
     ctx.log(f'phase 1 (write msh+cnt, read back) on {len(cases)} cases: {time.time() - t0:.1f}s')
@@ -419,6 +427,9 @@ def main(ctx):
     for i, m in enumerate(cases):
         r = res1[i]
         meta = m['meta']
+        mcase = {'mesh': m}
+        if jobs[i].get('pre_mesh') is not None:
+            mcase['pre_mesh'] = jobs[i]['pre_mesh']
         ctx.count('solution:' + meta['solution'])
         ctx.count('only_solid:%s' % meta['only_solid'])
         for k in meta['kinds']:
@@ -434,7 +445,7 @@ def main(ctx):
             empty = [k for k in ('boundary', 'cload') if k in meta['kinds']
                      and not any(kk == k for (kk, _, _, _) in want)]
             err = (r.get('write_error') or r.get('read_error') or '')
-            ctx.violation('impl-violation', {'mesh': m}, 'write then read succeeds',
+            ctx.violation('impl-violation', mcase, 'write then read succeeds',
                           {'write_error': r.get('write_error'), 'read_error': r.get('read_error')},
                           'C03_cnt_roundtrip / oracle on implementation', found_input=True,
                           signature={'oracle': 'roundtrip', 'stage': 'write' if 'write_error' in r else 'read',
@@ -443,7 +454,7 @@ def main(ctx):
             continue
         if r.get('mutated') or r.get('write2_error') or r.get('cnt2') != r.get('cnt'):
             impl_bad += 1
-            ctx.violation('impl-violation', {'mesh': m},
+            ctx.violation('impl-violation', mcase,
                           'write() leaves the conditions as they were; a second write gives the same file',
                           {'mutated': r.get('mutated'), 'write2_error': r.get('write2_error')},
                           'C03_cnt_roundtrip / oracle on implementation (object held by the caller)',
@@ -455,12 +466,14 @@ def main(ctx):
         if got != want or r['read']['solution_type'] != sol_want:
             impl_bad += 1
             diff = sorted(set(k for (k, _, _, _) in (got - want) + (want - got)))
-            ctx.violation('impl-violation', {'mesh': m},
+            ctx.violation('impl-violation', mcase,
                           {'solution': sol_want, 'prescriptions': sorted(want.elements())},
                           {'solution': r['read']['solution_type'], 'prescriptions': sorted(got.elements())},
                           'C03_cnt_roundtrip / oracle on implementation', found_input=True,
-                          signature={'oracle': 'roundtrip', 'kinds': ','.join(diff),
-                                     'solution_differs': r['read']['solution_type'] != sol_want},
+                          signature=({'oracle': 'roundtrip', 'over_existing_file': True}
+                                     if meta.get('over_existing') else
+                                     {'oracle': 'roundtrip', 'kinds': ','.join(diff),
+                                      'solution_differs': r['read']['solution_type'] != sol_want}),
                           what=f'round trip changes the prescriptions of {diff}')
     for g in gcases:
         rg = res2[f'{g["id"]}:cnt_group']
@@ -530,6 +543,13 @@ def main(ctx):
         ctx.violation('tie-broken', {'translator_error': ctx.notes.get('translator_error')},
                       'translator accepts the regions', 'fail-closed', 'translator c01_tables',
                       found_input=False, signature={'kind': 'tie-broken'})
+    if tie_ok and proof_ok and not cfg_ok:
+        ctx.violation('proof-broken', {'cnt_truncated': tables.get('cnt_truncated')},
+                      'the first write to <name>.cnt truncates the file on every path',
+                      'the file is opened for appending: an existing .cnt is kept in front',
+                      'C03_cnt_file_truncated', found_input=impl_bad > 0,
+                      signature={'oracle': 'roundtrip', 'over_existing_file': True, 'kind': 'cfg'},
+                      what='per-run obligation on the effect program of write(fistr) fails')
     if tie_ok and props.exists() and not proof_ok:
         bad = [o['name'] for o in ctx.obligations if not o['discharged']]
         ctx.violation('proof-broken', {'theorems': bad, 'log': ctx.notes.get('build_log_tail', '')[-600:]},
@@ -561,8 +581,11 @@ def replay(path):
         return 1 if bad else 0
     if 'mesh' in c:
         m = c['mesh']
-        r = cm.run_child(ctx, [{'op': 'write_read', 'id': 0, 'dir': str(work / 'm'), 'mesh': m,
-                                'read_cnt': True}], 'replay')[0]
+        job = {'op': 'write_read', 'id': 0, 'dir': str(work / 'm'), 'mesh': m, 'read_cnt': True}
+        if c.get('pre_mesh') is not None:
+            job['pre_mesh'] = c['pre_mesh']
+            print('(written with overwrite=True over an earlier export of other conditions)')
+        r = cm.run_child(ctx, [job], 'replay')[0]
         print('implementation cnt :', json.dumps(r.get('cnt', r.get('write_error'))))
         print('implementation read:', json.dumps(show_impl(r)), r.get('read_error', ''))
         print('model cnt          :', json.dumps(coq_show(ctx, 'Replay', f'show_lines (write_cnt {coq_cnt(m)})')))
